@@ -2247,15 +2247,26 @@ fn build_vp09_box(video: &Mp4VideoTrack, vp9_config: &Vp9Config) -> Vec<u8> {
 ///
 /// Based on VP9 Codec ISO Media File Format Binding specification.
 fn build_vpcc_box(vp9_config: &Vp9Config) -> Vec<u8> {
+    // VPCodecConfigurationBox is a FullBox (version 1, flags 0) followed by the
+    // VPCodecConfigurationRecord: profile(8) level(8) bitDepth(4) chromaSubsampling(3)
+    // videoFullRangeFlag(1) colourPrimaries(8) transferCharacteristics(8)
+    // matrixCoefficients(8) codecIntializationDataSize(16) = 0 for VP9.
+    const CHROMA_420_COLOCATED: u8 = 1;
     let payload = vec![
-        1,                              // Version (1 byte) - set to 1
-        vp9_config.profile,             // Profile (1 byte)
-        vp9_config.level,               // Level (1 byte)
-        vp9_config.bit_depth,           // Bit depth (1 byte)
-        vp9_config.color_space,         // Color space (1 byte)
-        vp9_config.transfer_function,   // Transfer function (1 byte)
-        vp9_config.matrix_coefficients, // Matrix coefficients (1 byte)
-        vp9_config.full_range_flag,     // Video full range flag (1 byte)
+        1, // FullBox version
+        0,
+        0,
+        0,                  // FullBox flags
+        vp9_config.profile, // profile
+        vp9_config.level,   // level
+        ((vp9_config.bit_depth & 0x0f) << 4)
+            | (CHROMA_420_COLOCATED << 1)
+            | (vp9_config.full_range_flag & 0x01),
+        vp9_config.color_space,         // colourPrimaries
+        vp9_config.transfer_function,   // transferCharacteristics
+        vp9_config.matrix_coefficients, // matrixCoefficients
+        0,
+        0, // codecIntializationDataSize
     ];
 
     build_box(b"vpcC", &payload)
